@@ -221,6 +221,13 @@ def build_pairs(tier):
                            '<z n="{count(/r/z)}" c="{count(/r/z/node())}"/><xsl:comment><xsl:value-of select="/r/w"/></xsl:comment></o>'), D_TEXT)
     add('adjacent-text', sheet('<o n="{count(/r/m/text())}" c="{count(/r/m/node())}"><xsl:for-each select="/r/m/node()"><i p="{position()}" n="{name()}" v="{.}"/></xsl:for-each><s t2="{/r/m/text()[2]}" tl="{/r/m/text()[last()]}" '
                                'j="{count(/r/m/j[1]/following-sibling::node())}" pre="{/r/m/j[2]/preceding-sibling::text()[1]}"/><tt n="{count(/r/t/text())}" w="{count(/r/w/text())}"/></o>'), D_TEXT)
+    # references inside character data make the parser deliver ONE text node in several characters() events, some of them
+    # whitespace only: the pieces must end up in one node in every source form, with and without strip-space
+    D_CHUNK = '<r><i> &amp; co</i><i>&#32;&lt;x</i><i>\n  &amp;\n  </i><i> a &amp; b </i><i>&#9;&#10;</i><i>x&#32;</i><j>\n <k/>&#32;\n</j></r>'
+    CHUNK_BODY = ('<o t="{count(//text())}"><xsl:for-each select="//i|//j"><e c="{count(node())}" t="{count(text())}" l="{string-length(.)}" f="[{text()[1]}]" '
+                  'z="[{text()[last()]}]" w="{count(text()[normalize-space()=\'\'])}"/></xsl:for-each></o>')
+    add('text-chunks', sheet(CHUNK_BODY), D_CHUNK)
+    add('text-chunks-strip', sheet(CHUNK_BODY, '<xsl:strip-space elements="*"/>'), D_CHUNK)
     # one text node longer than the parser's 16K / 32K character buffers: the SAX events must be merged into ONE node
     ltn = 20000 if tier == 'quick' else 40000
     add('long-text-node', sheet('<o n="{count(/r/t/text())}" l="{string-length(/r/t)}" l1="{string-length(/r/t/text()[1])}" end="{substring(/r/t, %d)}" mid="{substring(/r/t, 16380, 20)} {substring(/r/t, 32760, 20)}"/>' % (ltn - 10)), long_text_doc(ltn))
